@@ -14,6 +14,7 @@ import (
 	"fmt"
 	"io"
 	"math"
+	"os"
 	"strconv"
 	"strings"
 	"time"
@@ -185,6 +186,9 @@ func (missCache) DB(string) numbercache.ICache[uint64] { return missCache{} }
 type setCache struct{ seen map[uint64]bool }
 
 func (c *setCache) CheckAndSet(k uint64) bool {
+	if os.Getenv("C03_DEBUG") != "" {
+		fmt.Fprintln(os.Stderr, "cache key", k, c.seen[k])
+	}
 	if c.seen[k] {
 		return true
 	}
@@ -309,6 +313,9 @@ func run(c *Case) {
 			if r.TimeSeriesRequest != nil {
 				t := r.TimeSeriesRequest.(*model.TimeSeriesData)
 				k.NSeries = len(t.MLabels)
+				if os.Getenv("C03_DEBUG") != "" {
+					fmt.Fprintln(os.Stderr, "series rows", t.MDate, t.MType, t.MFingerprint, t.MLabels)
+				}
 				k.TsSize = t.Size
 				for i, l := range t.MLabels {
 					key := l + "\x00" + strconv.FormatUint(t.MFingerprint[i], 10)
